@@ -84,10 +84,17 @@ def ref_slice(N, a, b, step):
     return st, sp, L
 
 
-def slice_checks(S, vin, vo, st, L, step, dt, tag=""):
-    """spec of one slicing step given reference (st, L, step)"""
+def slice_checks(S, vin, vo, st, L, step, dt, tag="", fsel=None):
+    """spec of one slicing step given reference (st, L, step); fsel = (first channel, count) of a frequency slice"""
     checks = [(tag + "length", vo.length != L)]
-    checks += [(tag + n, b) for n, b in meta_checks(S, vin, vo, what=("cls", "cf", "align", "pol_type"))]
+    if fsel is None:
+        checks += [(tag + n, b) for n, b in meta_checks(S, vin, vo, what=("cls", "cf", "align", "pol_type"))]
+    else:
+        checks += [(tag + n, b) for n, b in meta_checks(S, vin, vo, what=("cls", "pol_type"))]
+        fa, fb = vin.chan_freqs()[fsel[0]:fsel[0] + fsel[1]], vo.chan_freqs()
+        if not (issubclass(vin.cls, pb.BasebandSignal) and step > 1 and len(fa) > 1):
+            # (a stepped slice of a multi-channel baseband signal changes chan_bw == sample_rate and with it the labels)
+            checks.append((tag + "labels", z3.Or([z3.BoolVal(len(fa) != len(fb))] + [neq(S, x, y, 1e-4) for x, y in zip(fa, fb)])))
     checks.append((tag + "dtype", z3.BoolVal(vo.dtype != vin.dtype)))
     checks.append((tag + "meta", z3.BoolVal(vo.meta != vin.meta)))
     checks.append((tag + "sample_rate", neq(S, vo.sr * step, vin.sr, 1e-9)))
@@ -105,8 +112,16 @@ def slice_checks(S, vin, vo, st, L, step, dt, tag=""):
     return checks
 
 
-def data_checks(S, vin, vo, st, L, step, tag=""):
+def data_checks(S, vin, vo, st, L, step, tag="", foff=0):
     bad = []
+    if foff or vo.sample_shape != vin.sample_shape:
+        # frequency-sliced output: channel j of the output is channel j+foff of the input
+        class _Shift:
+            pass
+        base = vin
+        vin = _Shift()
+        vin.sample_shape = vo.sample_shape
+        vin.elem = lambda t, ix, base=base: base.elem(t, (ix[0] + foff,) + tuple(ix[1:]))
     if S.symbolic:
         k = z3.Int("k_skolem")
         for ix in np.ndindex(*vin.sample_shape):
@@ -127,9 +142,9 @@ class Slice(Unit):
                  "pulsarbat.core:Signal.time_length", "pulsarbat.core:Signal.contains", "pulsarbat.core:Signal.dt")
     witnesses = 2
 
-    def __init__(self, clsname, pattern, with_t0=True, smax=4, twice=False):
-        self.clsname, self.pattern, self.with_t0, self.smax, self.twice = clsname, pattern, with_t0, smax, twice
-        self.name = f"slice-{clsname}-{pattern}{'' if with_t0 else '-not0'}{'-twice' if twice else ''}"
+    def __init__(self, clsname, pattern, with_t0=True, smax=4, twice=False, fidx=None):
+        self.clsname, self.pattern, self.with_t0, self.smax, self.twice, self.fidx = clsname, pattern, with_t0, smax, twice, fidx
+        self.name = f"slice-{clsname}-{pattern}{'' if with_t0 else '-not0'}{'-twice' if twice else ''}" + (f"-f{fidx}" if fidx else "")
         self.bounds = {"class": clsname, "bounds_present(start,stop,step)": pattern, "start_time": with_t0, "step<=": smax,
                        "N<=": "2^62", "two_successive_slices": twice}
 
@@ -157,8 +172,12 @@ class Slice(Unit):
         mk = (lambda x: SymSlice(*x, force=True)) if isinstance(sig.data, TArr) else (lambda x: slice(*x))
         outs = []
         cur = sig
-        for t in a["idx"]:
-            cur = cur[mk(t)]
+        for j, t in enumerate(a["idx"]):
+            if self.fidx and j == 0:
+                nch = CLASSES[self.clsname][1][0]
+                cur = cur[mk(t), (slice(None) if self.fidx == "full" else slice(nch - 1, nch))]
+            else:
+                cur = cur[mk(t)]
             outs.append(cur)
         out = outs[-1]
         r = {"outs": outs, "stop": out.stop_time, "tl": out.time_length, "len": out.shape[0]}
@@ -177,8 +196,12 @@ class Slice(Unit):
             st, sp, L = ref_slice(cur_N, t[0], t[1], step)
             vo = SigView(o)
             tag = f"s{j}:" if self.twice else ""
-            checks += slice_checks(S, cur_v, vo, st, L, step, cur_dt, tag)
-            checks += data_checks(S, cur_v, vo, st, L, step, tag)
+            fsel = None
+            if self.fidx and j == 0:
+                nch = CLASSES[self.clsname][1][0]
+                fsel = (0, nch) if self.fidx == "full" else (nch - 1, 1)
+            checks += slice_checks(S, cur_v, vo, st, L, step, cur_dt, tag, fsel=fsel)
+            checks += data_checks(S, cur_v, vo, st, L, step, tag, foff=(fsel[0] if fsel else 0))
             cur_v, cur_N, cur_dt = vo, L, cur_dt * step
         vo = cur_v
         L = cur_N
@@ -365,6 +388,11 @@ def units(tier):
     for cn in (("Signal", "BasebandSignal") if tier == "quick" else classes):
         us.append(Slice(cn, "111", with_t0=True, smax=3, twice=True))
         us.append(Slice(cn, "101", with_t0=True, smax=3, twice=True))
+    for cn in classes[1:]:
+        us.append(Slice(cn, "111", with_t0=True, smax=smax, fidx="full"))
+        us.append(Slice(cn, "101", with_t0=(cn != "IntensitySignal"), smax=smax, fidx="last"))
+        if tier != "quick":
+            us.append(Slice(cn, "011", with_t0=True, smax=3, twice=True, fidx="last"))
     for cn in classes:
         us.append(FastLenCrop(cn, with_t0=(cn != "RadioSignal")))
     rates = list(Contains.RATES)
